@@ -734,7 +734,7 @@ class SArr:
 class Base:
     """Heap array metadata. kind 'sym': content = dict(val=z3 array, tag=z3 array|None);
     kind 'conc': content = tuple of cell values (concrete shape)."""
-    __slots__ = ('id', 'elem', 'dtype', 'shape', 'kind', 'name')
+    __slots__ = ('id', 'elem', 'dtype', 'shape', 'kind', 'name', 'meta', 'finite')
     _ids = itertools.count()
 
     def __init__(self, elem, dtype, shape, kind, name='arr'):
@@ -744,6 +744,8 @@ class Base:
         self.shape = tuple(shape)  # tuple of SInt
         self.kind = kind
         self.name = name
+        self.meta = {}
+        self.finite = False   # static type invariant: every cell is a finite float (stores are checked)
 
 
 class SRecord:
@@ -827,6 +829,20 @@ def values_equal_syntactically(a, b):
     return False
 
 
+def _mentions_all(p, vs):
+    want = {v.get_id() for v in vs}
+    stack = [p]
+    seen = set()
+    while stack and want:
+        x = stack.pop()
+        if x.get_id() in seen:
+            continue
+        seen.add(x.get_id())
+        want.discard(x.get_id())
+        stack.extend(x.children())
+    return not want
+
+
 def forall(sorts, fn, patterns=None):
     """forall over ints (math mode): fn receives SInt bound variables, returns SBool."""
     if not isinstance(sorts, (list, tuple)):
@@ -839,7 +855,11 @@ def forall(sorts, fn, patterns=None):
     if patterns:
         pats = patterns(*args)
         pats = [p.z() if hasattr(p, 'z') else p for p in pats]
-        return SBool(z3.ForAll(vs, body.z(), patterns=pats))
+        if all(_mentions_all(p, vs) for p in pats):
+            try:
+                return SBool(z3.ForAll(vs, body.z(), patterns=pats))
+            except z3.Z3Exception:
+                pass    # e.g. the pattern is not a valid trigger after simplification
     return SBool(z3.ForAll(vs, body.z()))
 
 
